@@ -229,3 +229,22 @@ U('lemma_counting', fam_pgm, 'lemma_counting', ['C04', 'C07'], lemma_only=True, 
   cases=[('LEMMA_EPS', str(e)) for e in (0, 1, 4, 16, 64, 128, 1024)], canary=False,
   assumptions=['a lemma over contracts (spec text, no repository code): premises = consecutive starts inside a chunk are > 2*eps ranks apart (geo-2 maximality, bounded link) ',
                'proved per concrete epsilon in {0,1,4,16,64,128,1024} (division by a constant); symbolic epsilon is not attempted'])
+
+U('md_ctor', fam_md, 'RangeIterator_ctor', ['C13', 'C17', 'C16'], inline=['MD_box_zcontains_field', 'MD_box_zcontains'], stubs=['RangeIterator_advance'],
+  assumed=['PGMIndexT_search', 'morton_Decode', 'MD_encode'], decls=['md_ghost', 'std_bounds_T'],
+  lemmas=['lemma_data_sorted', 'lemma_rank', 'lemma_box_range', 'pgmv_lower_bound_T'], insts=MD_Q, thorough_insts=MD_ALL, spec=('md.spec',),
+  assumptions=[MD_NOTE, SEARCH_NOTE], timeout=1200)
+
+U('dyn_insert', fam_dyn, 'Dyn_insert', ['CXX_not_registered_yet'], inline=['Dyn_level', 'Dyn_max_size', 'Dyn_ceil_log2'], stubs=['Dyn_lower_bound_bl'], assumed=['Dyn_pairwise_merge'],
+  decls=['dyn_ghost', 'dyn_merge_ghost', 'dyn_insert_ghost'], lemmas=['lemma_level_size', 'vec_Item_insert'], insts=DYN_Q, spec=('dyn.spec',), timeout=1500, partition=16, mem_gb=10, defines=['NLEV=4'],
+  assumptions=[DYN_NOTE, 'std::vector::insert / emplace_back of the level vectors replaced by assumed contracts [A]', 'at most 32 levels above the buffer; (used_levels+1)*log2(base) <= 50 (sizes below 2^50)'])
+
+U('mapped_serialize', fam_mapped, 'Mapped_serialize_and_map', ['C12', 'C17'], assumed=['pgmv_fstream_open', 'pgmv_fstream_seekp', 'pgmv_write_member', 'pgmv_write_container', 'pgmv_map_file'],
+  decls=['mapped_ghost', 'ser_ghost'], insts=[kinst('uint64_t'), kinst('int32_t')], thorough_insts=MAPPED_ALL, spec=('mapped.spec',), mem_gb=20, timeout=900, drop_checks=['--conversion-check'],
+  assumptions=['std::fstream write/seekp and mmap are replaced by logging stubs [A]: a write advances the stream by the size written; map_file exposes the file',
+               'the constructors (field initialisation, build, the order of calls) and the load constructor are not under contract: bounded link mapped_files_link'])
+
+U('mapped_load_ctor', fam_mapped, 'Mapped_load_ctor', ['C12', 'C17'], assumed=['PGMBase_value_init', 'pgmv_fstream_open', 'pgmv_read_member', 'pgmv_read_container', 'pgmv_map_file'],
+  decls=['mapped_ghost', 'ser_ghost', 'load_ghost'], insts=[kinst('uint64_t'), kinst('int32_t')], thorough_insts=MAPPED_ALL, spec=('mapped.spec',), timeout=900, drop_checks=['--conversion-check'],
+  assumptions=['std::fstream read and mmap are replaced by logging stubs [A]: a read fills its destination from the current offset and advances by the size read',
+               'the content of the file at offsets 0/8/16 is what the writer contract (unit mapped_serialize) put there: linked by the ghost file content g_file_*, not by a byte-level file model'])
